@@ -409,7 +409,7 @@ func checkC14Out(c C14Case, o *h.Obs) *h.Fail {
 	return nil
 }
 
-const ruleC14 = "rapid-generated cases. (out) Decimals within 2 units of 2^63, 2^64, 10^19, 10^38, 2^32, 10^18 (with and without a 1-3 digit fractional tail, both signs), values with the point anywhere inside or beyond their digits, generic values up to 3000 digits with |exp| <= 5000, and values with any exponent (Int64/Uint64/IsInt/MinPrec only): Int (with and without destination), Int64, Uint64, Rat, IsInt, MinPrec against the exact value (truncation toward zero, accuracy Exact iff integer else sign of the discarded part, documented saturation incl. (0, Above) for negative Uint64 and nil for infinities); the operand must be unchanged. (in) SetInt (to 3000 digits, anchors +-2), SetInt64, SetUint64 (edges and uniform), SetRat (terminating / repeating / long denominators), NewDecimal (exponents over the whole int range incl. MaxInt64/MinInt64): value = exact argument rounded once, accuracy, precision rule for precision-0 receivers (both documented readings accepted for SetRat), NewDecimal saturating to +-0 / +-Inf. Enumerated completely on every run (TestC14Grid): SetInt and Int/Rat/IsInt/MinPrec of 10^d-1, 10^d (and 10^d+12345 for every 7th d) for every d up to 2500 (quick) / 6000 (thorough) digits, SetInt of 2^b-1 and 2^b for b up to 8800 / 20000 bits - size-estimate defects in the integer converters show only at particular lengths. SetRat also gets values M +- 1/D with M exactly on a rounding boundary of the receiver's precision and D a 40-150 digit denominator. Non-trivial = fractional or saturating value, argument wider than 64 bits, rounded result, NewDecimal leaving the range, any SetRat."
+const ruleC14 = "rapid-generated cases. (out) Decimals within 2 units of 2^63, 2^64, 10^19, 10^38, 2^32, 10^18 (with and without a 1-3 digit fractional tail, both signs), values with the point anywhere inside or beyond their digits, generic values up to 3000 digits with |exp| <= 5000, and values with any exponent (Int64/Uint64/IsInt/MinPrec only): Int (with and without destination), Int64, Uint64, Rat, IsInt, MinPrec against the exact value (truncation toward zero, accuracy Exact iff integer else sign of the discarded part, documented saturation incl. (0, Above) for negative Uint64 and nil for infinities); the operand must be unchanged. (in) SetInt (to 3000 digits, anchors +-2), SetInt64, SetUint64 (edges and uniform), SetRat (terminating / repeating / long denominators), NewDecimal (exponents over the whole int range incl. MaxInt64/MinInt64): value = exact argument rounded once, accuracy, precision rule for precision-0 receivers (both documented readings accepted for SetRat), NewDecimal saturating to +-0 / +-Inf. Enumerated completely on every run (TestC14Grid): SetInt and Int/Rat/IsInt/MinPrec of 10^d-1, 10^d (and 10^d+12345 for every 7th d) for every d up to 2500 (quick) / 6000 (thorough) digits, SetInt of 2^b-1 and 2^b for b up to 8800 / 20000 bits and of 2^b+12345 for a dozen b between 2^16 and 2^18 (2^20) - size-estimate defects in the integer converters show only at particular lengths. SetRat also gets values M +- 1/D with M exactly on a rounding boundary of the receiver's precision and D a 40-150 digit denominator. Non-trivial = fractional or saturating value, argument wider than 64 bits, rounded result, NewDecimal leaving the range, any SetRat."
 
 // TestC14Grid enumerates integer sizes completely: "magic length" defects in the binary<->decimal
 // integer converters (size estimates in SetInt/setNat and Int/decToNat) only show at particular digit
@@ -458,6 +458,17 @@ func TestC14Grid(t *testing.T) {
 			run(C14Case{Op: "setint", I: two.String(), P: uint(1 + b%40), M: uint8(b % 6)})
 		}
 		two.Lsh(two, 1)
+	}
+	// a handful of very large integers: size estimates computed in 32-bit arithmetic wrap far above the dense grid
+	huge := []uint{65535, 65536, 65537, 131071, 131072, 131073, 142675, 142676, 142677, 200003, 262143, 262144, 262145}
+	if h.Thorough() {
+		huge = append(huge, 524287, 524288, 524289, 1000003, 1048576)
+	}
+	for _, b := range huge {
+		v := new(big.Int).Lsh(big.NewInt(1), b)
+		v.Add(v, big.NewInt(12345))
+		run(C14Case{Op: "setint", I: v.String(), P: 0, M: 0})
+		run(C14Case{Op: "setint", I: v.String(), P: 40, M: 2})
 	}
 	h.AddExtra("C14", "size_grid_cases_enumerated", n)
 }
